@@ -310,6 +310,7 @@ type eagrBFS struct {
 	maxStates  int64 // cap (reported, exhaustive:false)
 	maxDepth   int   // cap on BFS depth (0: none)
 	switchAt   int   // frontier size at which the search continues depth-first (default 256)
+	lastVisited *eagrVisited // visited set of the last run (debugging aid)
 	// lock-step schedule family (cfg.ordered): the default schedule is the synchronous one - a
 	// delivery sub-phase hands over, in send order, every message that was in flight when the
 	// sub-phase began (messages sent meanwhile form the next sub-phase); when nothing is in flight
@@ -345,6 +346,14 @@ type eagrVisited struct {
 		mu sync.Mutex
 		m  map[[16]byte]struct{}
 	}
+}
+
+func (v *eagrVisited) has(k [16]byte) bool {
+	sh := &v.shards[k[0]]
+	sh.mu.Lock()
+	defer sh.mu.Unlock()
+	_, ok := sh.m[k]
+	return ok
 }
 
 func (v *eagrVisited) add(k [16]byte) bool {
@@ -383,7 +392,7 @@ func (b *eagrBFS) enabled(s *eagrSys) []eagrEv {
 		}
 		// loopback first (only present when the loopback queue is not modelled as atomic)
 		for j, n := range s.nodes {
-			if len(n.loop) > 0 {
+			if len(n.loop) > 0 && !n.passive {
 				evs = append(evs, eagrEv{K: "loop", N: j})
 				crashEvs()
 				return evs
@@ -528,6 +537,7 @@ type eagrBFSState struct {
 func (b *eagrBFS) run(r *ve.Run) eagrBFSResult {
 	res := eagrBFSResult{exhaustive: true}
 	var visited eagrVisited
+	b.lastVisited = &visited
 	init := eagrNewSys(b.cfg)
 	out0 := &eagrOut{}
 	init.boot(out0)
